@@ -28,7 +28,7 @@ CONSTANT Mode
 VARIABLES x, l, st, reqk
 tvars == <<x, l, st, reqk>>
 
-TraceThreads == (0..8) \cup {99}
+TraceThreads == (0..10) \cup {99}
 Ev == ndJsonDeserialize(IOEnv.TRACE_EVENTS)
 Ix == ndJsonDeserialize(IOEnv.TRACE_INDEX)
 Diag == "TRACE_DIAG" \in DOMAIN IOEnv /\ IOEnv.TRACE_DIAG = "1"
